@@ -3,7 +3,7 @@
    structured request, plus trailing bytes), the responder's output satisfies the verdict
    [req_ok] for every classified request, and an identified datagram / first segment
    satisfies the monitor. *)
-From MS Require Import Proofs.Tactics Smb Proto Proofs.SmbSafe Proofs.SmbLen Proofs.SmbBytes Spec.RefSmb Spec.C17
+From MS Require Import Proofs.Tactics Proofs.Pending Smb Proto Proofs.SmbSafe Proofs.SmbLen Proofs.SmbBytes Spec.RefSmb Spec.C17
   Spec.AppView Proofs.C17Lib Proofs.C17Fields Proofs.C17Smb1 Proofs.C17Smb2.
 Open Scope N_scope.
 
@@ -196,11 +196,10 @@ Lemma proto_tcp_smb E clk ci p id o
   (forall t, dispatch E clk ci id t p = do r <- run p; Ok (ci, t, r)) ->
   tcp_first_id E p = Some id -> run p = Ok o ->
   exists st, proto_repl_tcp E clk ci tcb_new p
-             = Ok (ci, {| t_smack := st; t_proto := id; t_pstate := None |}, o).
+             = Ok (ci, {| t_smack := st; t_proto := id; t_pstate := None; t_pending := [] |}, o).
 Proof.
-  intros Hd Hid Hr. unfold proto_repl_tcp. unfold tcp_first_id in Hid.
-  change (t_proto tcb_new =? PROTO_NONE) with true. cbv iota. change (t_smack tcb_new) with BASE_STATE.
-  destruct (search_next (e_proto_tbl E) BASE_STATE p) as [[i st] n]. subst i.
+  intros Hd Hid Hr. rewrite proto_repl_tcp_first. unfold tcp_first_id in Hid.
+  destruct (search_next (e_proto_tbl E) BASE_STATE p) as [[i st] n]. subst i. cbv zeta.
   cbn [id_of t_proto]. exists st. rewrite Hd, Hr. reflexivity.
 Qed.
 
